@@ -396,19 +396,21 @@ fn apply_stack_effects(fun_builder: &mut FunBuilder, instructions: &mut [Symboli
           reachable = true;
         }
       },
-      SymbolicByteCode::PushHandler((_, label)) => {
-        // the catch block is entered with the stack cut back to this depth
-        label_slots.entry(label.val()).or_insert(slots);
-
-        // TODO handle to many slots
-        *instruction = SymbolicByteCode::PushHandler(((slots + parameters) as u16, *label))
-      },
       _ => (),
     }
 
-    // dead code never runs so it has no depth to account for
+    // dead code never runs so it has no depth to account for, a handler
+    // pushed there does not make its catch block reachable either
     if !reachable {
       continue;
+    }
+
+    if let SymbolicByteCode::PushHandler((_, label)) = instruction {
+      // the catch block is entered with the stack cut back to this depth
+      label_slots.entry(label.val()).or_insert(slots);
+
+      // TODO handle to many slots
+      *instruction = SymbolicByteCode::PushHandler(((slots + parameters) as u16, *label))
     }
 
     slots += instruction.stack_effect();
